@@ -126,10 +126,15 @@ where T: EucRing + Bridge, for<'x> &'x T: EucRingOps<T>, T::O: OEuc {
                 let r = guarded(|| {
                     let e: Lc<EnumGen<isize>, T> = Lc::from((EnumGen((i - 1) as isize, j), T::one()));
                     let b = c.d((i - 1) as isize, &e);
-                    s.vectorize(&b)
+                    (s.vectorize(&b), s.vectorize_euc(&b))
                 });
                 match r {
-                    Ok(v) => {
+                    Ok((v, ve)) => {
+                        // coordinates reduced modulo the torsion orders: a boundary must come out as the zero vector
+                        if spvec_to_o(&ve).iter().any(|x| !x.is0()) {
+                            ctx.violation(&format!("C07/{tname}/boundary-coordinates-reduced"), &format!("H_{i}: vectorize_euc of the boundary d(e_{j}) is {:?}, not zero", spvec_to_o(&ve).iter().map(|x| x.show()).collect::<Vec<_>>()), wit(i, json!(null)));
+                            return
+                        }
                         let vo = spvec_to_o(&v);
                         let ok = (0..dim).all(|q| if q < s.rank() { vo[q].is0() } else { tors[q - s.rank()].divides(&vo[q]) });
                         if !ok {
